@@ -1008,6 +1008,11 @@ func (e *Executor) ExecuteTo(ctx context.Context, version string) (err error) {
 	// If the version we want to migrate to is before a
 	// checkpoint, it will be skipped by Pending.
 	case beforeCk:
+		// The files are copied to a directory that has its own (valid)
+		// sum file. Hence, the integrity of the source is checked here.
+		if err := e.ValidateDir(ctx); err != nil {
+			return err
+		}
 		dir, mem := e.dir, &MemDir{}
 		if err := mem.CopyFiles(files[:idx+1]); err != nil {
 			return fmt.Errorf("sql/migrate: copy files to memory: %w", err)
